@@ -31,7 +31,10 @@ impl Socket for Stream {
     fn split(self) -> (Self::ReadHalf, Self::WriteHalf) {
         let stream = Arc::new(self.0);
 
-        (ReadHalf(Arc::clone(&stream)), WriteHalf(stream))
+        (
+            ReadHalf(Arc::clone(&stream)),
+            WriteHalf { stream, written: 0 },
+        )
     }
 }
 
@@ -57,18 +60,24 @@ impl socket::ReadHalf for ReadHalf {
 
 /// The [`WriteHalf`] implementation using Unix Domain Sockets.
 #[derive(Debug)]
-pub struct WriteHalf(Arc<Async<StdUnixStream>>);
+pub struct WriteHalf {
+    stream: Arc<Async<StdUnixStream>>,
+    // How much of the buffer being written has reached the socket already. Kept here and not in
+    // the future, so that a write that is dropped half-way and then retried (the connection retries
+    // with the same bytes at the start of its buffer) carries on instead of sending the beginning
+    // a second time.
+    written: usize,
+}
 
 impl socket::WriteHalf for WriteHalf {
     async fn write(&mut self, buf: &[u8]) -> Result<()> {
         use futures_lite::io::AsyncWriteExt;
 
-        let mut pos = 0;
-
-        while pos < buf.len() {
-            let n = AsyncWriteExt::write(&mut &*self.0, &buf[pos..]).await?;
-            pos += n;
+        while self.written < buf.len() {
+            let n = AsyncWriteExt::write(&mut &*self.stream, &buf[self.written..]).await?;
+            self.written += n;
         }
+        self.written = 0;
 
         Ok(())
     }
